@@ -53,3 +53,27 @@ Proof.
             [pose proof (idx_bound _ _ _ E)|]; rewrite ?of_nat_ne_m1, ?ltb_nat1, ?Z.eqb_refl; cbn [negb] end ]).
   all: unfold label; try match goal with H : has_zh _ = _ |- _ => rewrite H end; rewrite <- ?app_assoc; try reflexivity.
 Qed.
+
+(* ---------- IsExported (valid/common.go) and GenValidKV (valid/rule.go) ---------- *)
+Ltac pstep2 :=
+  lazy beta iota zeta delta
+    [run_bool pexec pexec_list peval pset pempty fn_body fn_params fn_IsExported
+     String.eqb Ascii.eqb Bool.eqb andb orb negb].
+
+Definition is_exported_model (name : str) : bool :=
+  match name with c :: _ => (65 <=? c)%N && (c <=? 90)%N | [] => false end.
+
+Theorem is_exported_from_source name : run_bool fn_IsExported name = Some (is_exported_model name).
+Proof.
+  destruct name as [|c r]; pstep2; [reflexivity|].
+  cbn [str_eqb nth_error Z.to_nat Z.leb Z.compare]. pstep2.
+  replace (65 <=? Z.of_N c) with (65 <=? c)%N by (destruct (N.leb_spec 65 c); symmetry; [apply Z.leb_le|apply Z.leb_gt]; lia).
+  replace (Z.of_N c <=? 90) with (c <=? 90)%N by (destruct (N.leb_spec c 90); symmetry; [apply Z.leb_le|apply Z.leb_gt]; lia).
+  reflexivity.
+Qed.
+
+(* corollaries for C13: these bodies never index or slice out of range *)
+Lemma parser_never_panics (s : str) : exists r, run_parse fn_ParseValidNameKV s = Some r.
+Proof. eexists. apply parse_from_source. Qed.
+Lemma is_exported_never_panics (name : str) : exists b, run_bool fn_IsExported name = Some b.
+Proof. eexists. apply is_exported_from_source. Qed.
